@@ -41,4 +41,3 @@ func Targets(seed int64) []*gen.Target {
 	}
 	return out
 }
-
